@@ -255,6 +255,10 @@ def run_job(job):
             res["edges_replayed"] = info["edges"]
             res["graph_states"] = info["states"]
             res["spec_gates"] = {"%s/%s/%s" % k: v for k, v in info["gates"].items()}
+        if job.get("agents"):
+            from harness import agents_src
+            res["agents"] = agents_src.drive_agents(scn, rec, job.get("modes", replay.DEFAULT_MODES), job.get("seed", 0),
+                                                    job["agents"], agents=job.get("which", ("bruteforce", "random")))
         if job.get("random_steps"):
             ctor, modes_ = None, job.get("modes", replay.DEFAULT_MODES)
             if job["src"][0] == "gym":
